@@ -766,7 +766,7 @@ func c16Run(c *Ctx) {
 	g := newGen(GenP{Keys: []string{"a", "b", "-x", "#text"}, MaxList: 3, MaxKeys: 3, EmptyList: true, EmptyMap: true, ListInList: false, Leaves: []interface{}{"s", "<&>", 1.5, nullLeaf{}}})
 	g.rootMaps(nj, func(t *T) {
 		probe := inst(t, nil)
-		if !c03InDomain(probe, true) {
+		if !c03InDomain(probe, true) || c03HasNullAttr(probe) { // (a null attribute entry may be refused by the encoders, see C03)
 			return
 		}
 		if pm := probe.(map[string]interface{}); len(pm) == 1 {
